@@ -34,6 +34,7 @@ def cases(tier, rng):
                 "n_partitions": 2 if tier == "quick" else 4,
                 "n_histories": 2 if tier == "quick" else 4,
                 "dispersive": bool((i // 3 + i) % 3 == 1),
+                "mclass": i,
             }
         )
     return out
@@ -102,8 +103,10 @@ def _one(sc, r):
         detectors=("field", "energy", "poynting", "phasor"),
         n_detectors=(1, 3),
         grid=("uniform", "uniform", "rect"),
+        material_class=sc.get("mclass"),
     )
     meta = scene["meta"]
+    r.branch("material_class:" + str(meta.get("material_class", "drawn")))
     # every third scene carries a (stable) dispersive box: the polarisation state is part of what a split run hands on
     meta["dispersive"] = bool(sc.get("dispersive", False))
     if meta["dispersive"]:
